@@ -189,7 +189,9 @@ def run_history(res: Res, hist: dict) -> None:
         res.violate("wrapped-address" if out_of_range else "image-differs",
                     f"patched image differs from the written blocks: {got.first_difference(expected)} (got vs expected)", hist)
         return
-    if nbytes != total:
+    spans = sorted((a + delta, a + delta + ln) for a, ln, _ in hist["writes"] if ln)
+    overlapping = any(spans[i][1] > spans[i + 1][0] for i in range(len(spans) - 1))
+    if nbytes != total and not overlapping:     # with overlapping blocks a writer may legitimately drop bytes that are overwritten anyway
         res.violate("not-exactly-once", f"records carry {nbytes} bytes for {total} bytes written", hist)
         return
     if any(len(d) == 0 for _, d, _ in records):
